@@ -1,0 +1,16 @@
+//go:build verif
+
+// Verification hooks (read-only): compiled only with -tags verif.
+
+package drbg
+
+import "fmt"
+
+// VerifConstants returns the package constants as the compiler evaluated them.
+func VerifConstants() map[string]string {
+	m := map[string]string{}
+	put := func(k string, v interface{}) { m[k] = fmt.Sprint(v) }
+	put("Size", Size)
+	put("SeedLength", SeedLength)
+	return m
+}
